@@ -31,3 +31,21 @@ Theorem c06_read_blocks_good : forall (sha512 : bytes -> bytes) (hmac256 : bytes
 Proof. exact (fun sha512 hmac256 => read_blocks_good sha512 sha512 hmac256 (fun _ _ _ => Err ECrypto) (fun _ _ _ _ => Err ECrypto) (fun _ _ _ _ => Err ECrypto) (fun _ _ => Err ECrypto) (fun _ _ => Err ECrypto)). Qed.
 Theorem c06_version_parse_good : forall data, good (version_parse data).
 Proof. exact version_parse_good. Qed.
+
+(* the legacy readers (models format/Kdbx3.v, format/Kdb.v): the same for every byte string *)
+From KP Require Import Kdbx3 Kdbx3Proofs Kdb KdbProofs.
+Theorem c06_decrypt3_total :
+  forall (sha256 : bytes -> bytes) (kdf : kdfcfg -> bytes -> bytes -> outcome kerr bytes)
+         (outer_dec : ocipher -> bytes -> bytes -> bytes -> outcome kerr bytes)
+         (decompress : compression -> bytes -> outcome kerr bytes) data els,
+  good els ->
+  (forall k s c, good (kdf k s c)) ->
+  (forall c k iv d, good (outer_dec c k iv d)) ->
+  (forall z d, good (decompress z d)) ->
+  (forall n, decrypt3 sha256 kdf outer_dec decompress data els <> Panic n) /\
+  decrypt3 sha256 kdf outer_dec decompress data els <> OutOfFuel.
+Proof. exact decrypt3_never_panics_never_hangs. Qed.
+Theorem c06_kdb_parse_db_total :
+  forall ng ne payload,
+  match parse_db ng ne payload with Panic _ => False | OutOfFuel => False | _ => True end.
+Proof. exact parse_db_never_panics. Qed.
